@@ -427,6 +427,17 @@ pub fn gen_cmd_in(rng: &mut Rng, cfg: &GenCfg, depth: usize, name: &str, inherit
         g.required = rng.chance(1, 4); g.multiple = rng.chance(1, 3);
         if rng.chance(1, 4) { g.requires.push(rng.pick(&ids).clone()); }
         if rng.chance(1, 4) { g.conflicts.push(rng.pick(&ids).clone()); }
+        // a second group; conflicts between the two groups are declared ONE way only
+        if ids.len() >= 3 && rng.chance(1, 2) {
+            let mut g2 = GroupS { id: format!("grpb{depth}"), ..Default::default() };
+            for id in &ids { if !g.args.contains(id) && rng.chance(2, 3) { g2.args.push(id.clone()); } }
+            if !g2.args.is_empty() {
+                g2.multiple = rng.chance(1, 2);
+                match rng.below(3) { 0 => g.conflicts.push(g2.id.clone()), 1 => g2.conflicts.push(g.id.clone()), _ => {} }
+                if rng.chance(1, 5) { g2.requires.push(rng.pick(&ids).clone()); }
+                c.groups.push(g2);
+            }
+        }
         c.groups.push(g);
         if rng.chance(1, 4) && !c.args.is_empty() { let k = rng.below(c.args.len()); c.args[k].groups.push(format!("agrp{depth}")); }
     }
